@@ -148,8 +148,8 @@ def run(res):
     exe = vlib.build_harness("asan")
     # volumes with one bitmap page (floppies) and with several (hardfiles of 3 and 4 pages: 9536 and 12400 blocks)
     mix = [("file", {"nops": 30}), ("extbound", {}), ("names", {"nops": 30}), ("file", {"nops": 25, "kind": 9536}), ("dirc", {"nops": 25}),
-           ("file", {"nops": 30, "nfiles": 3}), ("file", {"nops": 25, "kind": 12400, "nfiles": 2}), ("dircspill", {}), ("dircgrow", {})]
-    n = 18 if res.tier == "quick" else 400
+           ("file", {"nops": 30, "nfiles": 3}), ("file", {"nops": 25, "kind": 12400, "nfiles": 2}), ("dircspill", {}), ("dircgrow", {}), ("truncseek", {})]
+    n = 20 if res.tier == "quick" else 400
     specs = []
     for i in range(n):
         prof, kw = mix[i % len(mix)]
